@@ -47,30 +47,42 @@ func (s *scope) lookup(varname string) string {
 	return ""
 }
 
-func (s *scope) pushForRange(loopVar string) (lVar, lLimit string) {
+func (s *scope) pushForRange(loopVar string) (lVar, lLimit, lIndex, lCount string) {
 	s.n++
 	n := strconv.Itoa(s.n)
 	s.stack = append(s.stack, map[string]string{
-		loopVar:   loopVar + n,
-		"__limit": loopVar + "Limit" + n,
-		"__index": loopVar + n,
+		loopVar:             loopVar + n,
+		"__limit":           loopVar + "Count" + n,
+		"__index":           loopVar + "Index" + n,
+		loopVar + "__limit": loopVar + "Count" + n,
+		loopVar + "__index": loopVar + "Index" + n,
 	})
 	return loopVar + n,
-		loopVar + "Limit" + n
+		loopVar + "Limit" + n,
+		loopVar + "Index" + n,
+		loopVar + "Count" + n
 }
 
 func (s *scope) pushForEach(loopVar string) (lVar, lList, lLen, lIndex string) {
 	s.n++
 	n := strconv.Itoa(s.n)
 	s.stack = append(s.stack, map[string]string{
-		loopVar:   loopVar + n,
-		"__limit": loopVar + "Limit" + n,
-		"__index": loopVar + "Index" + n,
+		loopVar:             loopVar + n,
+		"__limit":           loopVar + "Limit" + n,
+		"__index":           loopVar + "Index" + n,
+		loopVar + "__limit": loopVar + "Limit" + n,
+		loopVar + "__index": loopVar + "Index" + n,
 	})
 	return loopVar + n,
 		loopVar + "List" + n,
 		loopVar + "Limit" + n,
 		loopVar + "Index" + n
+}
+
+// loopvars returns the JS variable names holding the position and the number
+// of iterations of the loop over the given variable ("" if there is none).
+func (s *scope) loopvars(loopVar string) (index, limit string) {
+	return s.lookup(loopVar + "__index"), s.lookup(loopVar + "__limit")
 }
 
 // looplimit returns the JS variable name for the innermost loop limit.
